@@ -627,7 +627,7 @@ int main(int argc, char** argv) {
     auto it = maxLen.find(ep.name); if (it != maxLen.end()) want = th ? it->second.second : it->second.first;
     bool distItems = ep.name.find("readDiscreteDistribution.") == 0 && ep.name != "readDiscreteDistribution.compound";
     bool classCount = ep.name.find(".class-count") != string::npos;
-    if (distItems && it == maxLen.end()) want = classCount ? (th ? 2 : 1) : (th ? 3 : 2);
+    if (distItems && it == maxLen.end()) want = classCount ? (th ? 2 : 1) : 3;   // a family description with class count and both shape parameters has three items
     int L = fitLen(A, want, O, cap);
     uint64_t nS = countUpTo(A, L);
     capsNote += ep.name + "=" + vf::str(L) + (L < want ? "(capped from " + vf::str(want) + ")" : "") + "; ";
